@@ -199,6 +199,19 @@ except Exception as e:  # noqa
     cps = None
 
 try:
+    import extract_dhtmlx
+    try:
+        dxs = extract_dhtmlx.extract(open(os.path.join(src, 'viz', 'dhtmlx', 'gantt.py')).read())
+        ok.append('dhtmlx_src')
+    except Exception as e:  # noqa
+        dxs = extract_dhtmlx.pinned()
+        miss.append(f'dhtmlx_src: {e}')
+    vals['dhtmlx_src'] = dxs
+except Exception as e:  # noqa
+    miss.append(f'extract_dhtmlx: {e}')
+    dxs = None
+
+try:
     import extract_render
     try:
         rns = extract_render.extract(open(os.path.join(src, 'viz', 'mermaid', 'network.py')).read(),
@@ -283,6 +296,8 @@ if fs is not None:
     write_if_changed(os.path.join(lean, 'PjVerif', 'Extracted', 'FacadeSrc.lean'), extract_facade.to_lean(fs))
 if cps is not None:
     write_if_changed(os.path.join(lean, 'PjVerif', 'Extracted', 'CritPathSrc.lean'), extract_critpath.to_lean(cps))
+if dxs is not None:
+    write_if_changed(os.path.join(lean, 'PjVerif', 'Extracted', 'DhtmlxSrc.lean'), extract_dhtmlx.to_lean(dxs))
 if rns is not None:
     write_if_changed(os.path.join(lean, 'PjVerif', 'Extracted', 'RenderSrc.lean'), extract_render.to_lean(rns))
 if cvs is not None:
